@@ -37,7 +37,12 @@ FILES = {
     "ast": ("src/pyab_experiment/data_structures/syntax_tree.py", ["C05", "C07", "C02", "C03", "C13"]),
     "operators": ("src/pyab_experiment/utils/custom_operators.py", ["C02"]),
     "exceptions": ("src/pyab_experiment/codegen/python/custom_exceptions.py", ["C02", "C14"]),
+    # the vendored parser generator: the lexer runtime, and the LR parse loop of yacc.py (its table construction is not
+    # mutated: a broken table breaks every program at once)
+    "slylex": ("src/pyab_experiment/sly/lex.py", ["C06", "C08", "C05", "C07", "C02", "C17"]),
+    "slyparse": ("src/pyab_experiment/sly/yacc.py", ["C06", "C02", "C07", "C05", "C17"]),
 }
+LINE_RANGES = {"slyparse": (2150, 2400)}
 
 CMP = {ast.Lt: ast.LtE, ast.LtE: ast.Lt, ast.Gt: ast.GtE, ast.GtE: ast.Gt, ast.Eq: ast.NotEq, ast.NotEq: ast.Eq,
        ast.Is: ast.IsNot, ast.IsNot: ast.Is, ast.In: ast.NotIn, ast.NotIn: ast.In}
@@ -173,14 +178,18 @@ def scratch_with(relpath, source):
 
 def stage_tests(args):
     todo = []
-    for key in (args.files.split(",") if args.files else FILES):
+    for key in (args.files.split(",") if args.files else [k for k in FILES if not k.startswith("sly")]):
         rel, _ = FILES[key]
         src = open(os.path.join(REPO, rel)).read()
         tree = ast.parse(src)
         base = ast.unparse(tree)
+        lo, hi = LINE_RANGES.get(key, (0, 10**9))
         for i in range(n_sites(tree)):
             try:
                 desc, t = mutate(tree, i)
+                line = int(desc.split("line ")[1].split(":")[0])
+                if not lo <= line <= hi:
+                    continue
                 new = ast.unparse(t)
             except Exception as e:  # noqa: BLE001
                 continue
